@@ -154,6 +154,8 @@ def completion_scenario(rng, tr):
             nid += 1
             ty = 'in' if rng.random() < 0.88 else 'out'
             s.append(dict(op='enter', id=nid, res=rng.randint(1, 3), ty=ty, b=rng.choice([1, 1, 1, 2, 4])))
+            if ty == 'out' and rng.random() < 0.6:
+                s[-1]['imp'] = True      # outbound by default: the call does not name its traffic type (pooled options must not leak one)
             open_ids.append(nid)
         elif x < 0.57 and open_ids:
             s += completion_ops(rng, open_ids, done_ids)
@@ -206,6 +208,8 @@ def random_scenarios(c, n, first_tr):
                 nid += 1
                 ty = 'in' if rng.random() < (0.85 if bbr_focus else 0.7) else 'out'
                 s.append(dict(op='enter', id=nid, res=rng.randint(1, 3), ty=ty, b=rng.choice([1, 1, 1, 2, 4, 8])))
+                if ty == 'out' and rng.random() < 0.6:
+                    s[-1]['imp'] = True
                 open_ids.append(nid)
             elif x < 0.68 and open_ids:
                 s += completion_ops(rng, open_ids, done_ids)
